@@ -2411,9 +2411,14 @@ func (a *Agent) handleControlRequest(peerID identity.AgentID, frame *protocol.Fr
 			return
 		}
 
-		// Track this forwarded request so we can route the response back
+		// Track this forwarded request so we can route the response back. Request IDs
+		// are per-agent counters, so requests from different sources (or one of our own)
+		// can carry the same number: forward under an ID of our own and restore the
+		// original one when the response comes back.
 		a.controlMu.Lock()
-		a.forwardedControl[req.RequestID] = &forwardedControlRequest{
+		a.nextControlID++
+		fwdID := a.nextControlID
+		a.forwardedControl[fwdID] = &forwardedControlRequest{
 			RequestID:  req.RequestID,
 			SourcePeer: peerID,
 			CreatedAt:  time.Now(),
@@ -2428,7 +2433,7 @@ func (a *Agent) handleControlRequest(peerID identity.AgentID, frame *protocol.Fr
 			"source_peer", peerID.ShortString())
 
 		fwdReq := &protocol.ControlRequest{
-			RequestID:   req.RequestID,
+			RequestID:   fwdID,
 			ControlType: req.ControlType,
 			TargetAgent: req.TargetAgent,
 			Path:        remainingPath,
@@ -2445,7 +2450,7 @@ func (a *Agent) handleControlRequest(peerID identity.AgentID, frame *protocol.Fr
 				logging.KeyPeerID, nextHop.ShortString(),
 				logging.KeyError, err)
 			a.controlMu.Lock()
-			delete(a.forwardedControl, req.RequestID)
+			delete(a.forwardedControl, fwdID)
 			a.controlMu.Unlock()
 			a.sendControlResponse(peerID, req.RequestID, req.ControlType, false, []byte("failed to forward: "+err.Error()))
 		}
@@ -2524,6 +2529,8 @@ func (a *Agent) handleControlResponse(peerID identity.AgentID, frame *protocol.F
 			"to", forwarded.SourcePeer.ShortString(),
 			"request_id", resp.RequestID)
 
+		// Give the response the ID the source used for its request
+		resp.RequestID = forwarded.RequestID
 		responseFrame := &protocol.Frame{
 			Type:     protocol.FrameControlResponse,
 			StreamID: protocol.ControlStreamID,
